@@ -120,6 +120,7 @@ type GenConfig struct {
 	WithPartial bool // include "loadtail": the replica restarts from a length-limited load (its log is then not causally closed)
 	WithLoad    bool // include "load": the replica restarts from the store (manifest / JSON heads / head entries)
 	AppendBias  int  // extra weight for appends
+	LargeOneIn  int  // > 0: about one program in that many starts every replica from a prefix of one long shared history (> 1000 entries)
 }
 
 func Gen(t *rapid.T, cfg GenConfig) Prog {
@@ -146,6 +147,11 @@ func Gen(t *rapid.T, cfg GenConfig) Prog {
 	}
 	for i := 0; i < n; i++ {
 		p.Conc = append(p.Conc, rapid.SampledFrom([]int{0, 0, 1, 2, 3, 5}).Draw(t, "conc"))
+	}
+	if cfg.LargeOneIn > 0 && rapid.IntRange(0, cfg.LargeOneIn-1).Draw(t, "large") == cfg.LargeOneIn*2/3 { // (rapid favours small values: a value from the middle has about the nominal frequency)
+		for i := 0; i < n; i++ {
+			p.Preload = append(p.Preload, rapid.SampledFrom([]int{1030, 1100, 1100, 1290}).Draw(t, "preload"))
+		}
 	}
 	p.Order = rapid.SampledFrom(cfg.Orders).Draw(t, "order")
 	p.Codec = rapid.SampledFrom(cfg.Codecs).Draw(t, "codec")
@@ -239,6 +245,7 @@ func New(tb ev.TB, p *Prog) *World {
 				model.Add(e.GetHash().String())
 			}
 			lo.Entries = entry.NewOrderedMapFromEntries(es)
+			lo.Heads = es[len(es)-1:] // with the heads given the log's clock starts at their time, as for a log that grew by appends
 		}
 		l, err := world.NewLog(w.Store.API(), wr, LogID, w.Order, w.IO, lo)
 		if err != nil {
